@@ -251,7 +251,7 @@ def noteWrite (st : St) (db rp : String) (pts : List RawPoint) : St := Id.run do
             if !o.dims.isEmpty then
               st := addBr st "opt-groupby-names"
               if docTagNames o p.pl.tags != o.dims then st := addBr st "opt-groupby-names-resorted"
-              if o.dims.eraseDups.length < o.dims.length then st := addBr st "opt-groupby-duplicate-name-kept"
+              if o.dims.eraseDups.length < o.dims.length then st := addBr st "opt-groupby-duplicate-name-once"
               if o.dims.any (fun n => !p.pl.tags.any (·.1 == n)) then st := addBr st "opt-groupby-listed-tag-absent-still-listed"
             if o.byName then st := addBr st "opt-groupby-measurement"
             -- a sibling (not on this node's chain) re-stamps the same point: this one must see the original
